@@ -206,6 +206,12 @@ pub fn scenarios() -> Vec<Scn> {
         }
       }
     }
+    // a burst far longer than any small constant the hand-over might batch or cap by
+    if matches!(p, Pipe::ObserveOn | Pipe::SubscribeOn | Pipe::ObserveOnTwice | Pipe::SubscribeOnObserveOn) {
+      let burst: Vec<Emit<i64>> = (1..=20).map(N).chain(std::iter::once(C)).collect();
+      v.push(pipe_scn(p, burst.clone(), false, false, Some(1), Some(2)));
+      v.push(pipe_scn(p, burst, true, false, Some(1), Some(1)));
+    }
     // re-subscription of the same Observable value
     v.push(twice_scn(p, vec![N(1), N(2), C], false, Some(1), Some(2)));
     v.push(twice_scn(p, vec![N(1), E(7)], true, None, Some(2)));
